@@ -30,7 +30,7 @@ TRUSTED = [
 #  95d15ad + 2a611aa, 1b7b9df -- a recurrence is a VIOLATION)
 CLASS_TO_FINDING = [
     ("doc-comment-split", "C14-doc-comment-split"),
-    ("main-pipeline-alias", "C14-main-pipeline-alias"),
+    ("named-param-type", "C14-named-param-type"),
     ("float-nonfinite", "F11-float-nonfinite"),
     ("float-integral", "F11-float-integral"),
 ]
